@@ -22,3 +22,5 @@ def _bt_laws(ctx):
 
 
 BOUNDED = BOUNDED + [_bt_laws]
+
+VALIDATION = (globals().get('VALIDATION') or []) + [validate_ir]
